@@ -19,9 +19,17 @@ def main():
     rest = sys.argv[5:]
     tier = "quick"
     props = None
+    demo_flags = ""
+    demo_tc = ""
     i = 0
     while i < len(rest):
-        if rest[i] == "--props":
+        if rest[i] == "--demo-flags":
+            demo_flags = rest[i + 1]
+            i += 2
+        elif rest[i] == "--demo-toolchain":
+            demo_tc = rest[i + 1]
+            i += 2
+        elif rest[i] == "--props":
             props = rest[i + 1].split(",")
             i += 2
         else:
@@ -32,7 +40,7 @@ def main():
         props = [c["property_id"] for c in manifest["checks"]]
     out = {}
     # 1. confirm in the scratch worktree
-    rc, conf = sh("%s/tools/confirm_mutant.sh %s %s" % (V, wt, letter))
+    rc, conf = sh("%s/tools/confirm_mutant.sh %s %s '%s' '%s'" % (V, wt, letter, demo_flags, demo_tc))
     suite_ok = ("FAILED" not in conf.split("== demo with mutant")[0]) and "APPLY FAILED" not in conf
     demo_with = conf.split("== demo with mutant (must FAIL)")[1].split("== demo without")[0] if "== demo with mutant" in conf else ""
     demo_without = conf.split("== demo without mutant (must PASS)")[1] if "== demo without" in conf else ""
@@ -80,7 +88,7 @@ def main():
         id=sid, breaks_property=prop,
         needs_to_manifest=open(notes).read()[:1500] if os.path.exists(notes) else "",
         confirmed=dict(existing_suite_passes_with_change=True, demo_fails_with_change=True, demo_passes_without_change=True,
-                       how="tools/confirm_mutant.sh in a scratch worktree: cargo test --offline --workspace --no-fail-fast; cargo test --offline --test demo"),
+                       how="tools/confirm_mutant.sh in a scratch worktree: cargo test --offline --workspace --no-fail-fast; cargo %s test --offline %s --test demo" % (demo_tc, demo_flags)),
         checks_run=dict(tier=tier, how="git -C /repo apply patch.diff; ./check <P> %s for every registered check; git -C /repo checkout -- ." % tier, results=results),
         caught_by=caught_by,
         caught_by_target_property=prop in caught_by,
